@@ -354,6 +354,22 @@ def f_deferwin(lead=1):
     }
 
 
+def f_outamend(lead=0, wv=1, src="x"):
+    """K declares src.txt as input but writes a constant: after an edit of src.txt it runs again
+    and reproduces k.txt byte for byte (OUTDATED -> BUILT without a new hash). W amends k.txt at
+    run time, after `lead` idle actions: the amendment may arrive while K is running again."""
+    return {
+        "src.txt": f"source {src}\n",
+        # the first version of W does not use k.txt at all, so no dynamic edge exists before
+        "w.py": script([["write", "w.out", []]] if wv == 1 else
+                       [*([["nop"]] * lead), ["amend", {"inp": ["k.txt"]}], ["read", "k.txt"],
+                        ["write", "w.out", ["k.txt"]]], v=wv),
+        "plan.py": script([["static", "src.txt", "w.py"],
+                           ["step", "tr K -- k.txt", {"inp": ["src.txt"], "out": ["k.txt"]}],
+                           ["run", "./w.py", {"out": ["w.out"]}]]),
+    }
+
+
 def f_treeamend():
     """C amends a file under a static tree (UNCONFIRMED path, promoted hash jobs)."""
     return {
